@@ -98,6 +98,16 @@ def main(tier, seed):
                 t = tsmlib.record(dict(rc0, iam_on_frame=k))
                 traces.append(t)
                 chk.case(("iam-during", known, nq, nr, k), nontrivial=True)
+    # requests that cannot be sent at all (the client does not segment / the peer is known not to take segments / not that
+    # many): refused on the spot with a local abort -- one outcome, and nothing is kept for them
+    for rc in (tsmlib.rig_cfg(seg=50, nq=3, nr=1, c_seg="noSegmentation", refused=True),
+               tsmlib.rig_cfg(seg=50, nq=3, nr=1, c_seg="segmentedReceive", refused=True),
+               tsmlib.rig_cfg(seg=50, nq=3, nr=1, known=True, s_seg="noSegmentation", refused=True),
+               tsmlib.rig_cfg(seg=50, nq=3, nr=1, known=True, s_seg="segmentedTransmit", refused=True),
+               tsmlib.rig_cfg(seg=50, nq=4, nr=1, lq=44 * 3 + 22, known=True, known_maxsegs=2, refused=True),
+               tsmlib.rig_cfg(seg=50, nq=3, nr=1, lq=44 * 2 + 22, known=True, known_maxsegs=2, refused=True, via_device=True)):
+        traces.append(tsmlib.record(rc))
+        chk.case(("refused", rc.get("c_seg"), rc.get("s_seg"), rc.get("known_maxsegs"), rc.get("via_device", False)), nontrivial=True)
     # sizes on both sides of every segmentation boundary, slow application
     for seg in (50, 128, 480, 1476):
         for L in (seg - 1, seg, seg + 1, 2 * seg, 2 * seg + 1):
